@@ -200,6 +200,8 @@ OPNMIDI_EXPORT int opn2_removeBank(OPN2_MIDIPlayer *device, OPN2_Bank *bank)
     assert(play);
     Synth::BankMap &map = play->m_synth->m_insBanks;
     Synth::BankMap::iterator it = Synth::BankMap::iterator::from_ptrs(bank->pointer);
+    // Sounding notes refer to the instruments of their bank
+    play->releaseNotesOfBank(it->second.ins);
     size_t size = map.size();
     map.erase(it);
     return (map.size() != size) ? 0 : -1;
